@@ -311,6 +311,7 @@ func checkC06(c *Ctx) {
 	c.checkOperatorLexable(regs)
 	c.checkSignContext(regs)
 	c.checkInfixSignFusion("C06-INF")
+	c.checkTrailingColonKept("C06-COLON")
 	c.checkOperandStackEnds()
 	c.checkSelectorReparse()
 	// whether a - or + is a sign or an operator is decided by looking back through the lexer's ring of recent runes
@@ -921,4 +922,94 @@ func (c *Ctx) checkInfixSignFusion(rule string) {
 	c.check(handled, rule, "Parser.ParseInfix", "a sign after an operand stays an operator", orPos(at, pi.Pos()),
 		"ParseInfix takes a + or - that follows an operand itself and appends the operator symbol; ParseExpression, which would fuse it with a following Inf, is not asked",
 		"ParseExpression fuses a + or - token with a following Inf into a signed literal, and ParseInfix hands every token to it: in {x = 5 - Inf} the operator never reaches the precedence parser, x is set to 5 and -Inf becomes a statement of its own")
+}
+
+// checkTrailingColonKept: C06-COLON. The lexer glues a ':' onto the pending atom
+// and DecodeAtom sets it aside again; only its symbol arm gives the colon back
+// (key: becomes a symbol-colon token). For every other kind of atom (a hex
+// literal, a dotted path, a float) the colon is the slice colon of a[i:j] and
+// must still reach the parser: a[0x1:] is a slice, not an index. The routine
+// that turns the buffer into tokens has to emit the colon token itself when
+// the atom ended in ':' and the decoded token is not the symbol-colon.
+func (c *Ctx) checkTrailingColonKept(rule string) {
+	dec := c.mustFn(rule, "Lexer.DecodeAtom")
+	mkTok := c.mustFn(rule, "Lexer.Token")
+	if dec == nil || mkTok == nil {
+		return
+	}
+	var colonOp int64 = -1
+	if k, ok := c.Zygo.Types.Scope().Lookup("TokenColonOperator").(*types.Const); ok {
+		colonOp, _ = constInt64(k)
+	}
+	var symColon int64 = -1
+	if k, ok := c.Zygo.Types.Scope().Lookup("TokenSymbolColon").(*types.Const); ok {
+		symColon, _ = constInt64(k)
+	}
+	isColonByteCmp := func(in ssa.Instruction) bool {
+		bo, ok := in.(*ssa.BinOp)
+		if !ok || (bo.Op != token.EQL && bo.Op != token.NEQ) {
+			return false
+		}
+		k, ok := constIntOf(bo.Y)
+		return ok && k == ':'
+	}
+	strips := false
+	eachInstr(dec, func(b *ssa.BasicBlock, i int, in ssa.Instruction) {
+		if isColonByteCmp(in) {
+			strips = true
+		}
+	})
+	if !strips {
+		c.ok(rule, "Lexer.DecodeAtom", "trailing colon", dec.Pos(), "DecodeAtom does not set a trailing colon aside")
+		return
+	}
+	callers := c.callersOf(dec)
+	n := 0
+	var fs []*ssa.Function
+	for g := range callers {
+		fs = append(fs, g)
+	}
+	sort.Slice(fs, func(i, j int) bool { return fnName(fs[i]) < fnName(fs[j]) })
+	for _, g := range fs {
+		n++
+		gives := false
+		var cmpBlocks []*ssa.BasicBlock
+		eachInstr(g, func(b *ssa.BasicBlock, i int, in ssa.Instruction) {
+			if isColonByteCmp(in) {
+				cmpBlocks = append(cmpBlocks, b)
+			}
+		})
+		eachInstr(g, func(b *ssa.BasicBlock, i int, in ssa.Instruction) {
+			call, ok := in.(*ssa.Call)
+			if !ok || call.Call.StaticCallee() != mkTok || len(call.Call.Args) < 2 {
+				return
+			}
+			if k, ok := constIntOf(call.Call.Args[1]); !ok || k != colonOp {
+				return
+			}
+			// ... on the side where the decoded token is not the symbol-colon
+			notSymColon := guardedBy(b, func(cond ssa.Value) (bool, bool) {
+				bo, ok := cond.(*ssa.BinOp)
+				if !ok || (bo.Op != token.EQL && bo.Op != token.NEQ) {
+					return false, false
+				}
+				k, ok := constIntOf(bo.Y)
+				if !ok || k != symColon {
+					return false, false
+				}
+				return true, bo.Op == token.NEQ
+			})
+			for _, cb := range cmpBlocks {
+				if cb.Dominates(b) && cb != b && notSymColon {
+					gives = true
+				}
+			}
+		})
+		c.check(gives, rule, fnName(g), "colon set aside by DecodeAtom is given back", callers[g][0].Pos(),
+			"when the atom ended in ':' and the decoded token is not a symbol-colon, the colon operator token is emitted after it",
+			"DecodeAtom strips a trailing ':' from the atom and returns it only with a symbol; this caller emits the decoded token alone, so after a hex, octal, binary or float literal or a dotted path the slice colon vanishes: a[0x1:] is read as the index a[1] and a[h.lo:h.hi] as a field access")
+	}
+	if n == 0 {
+		c.undecided(rule, "Lexer.DecodeAtom", "callers", dec.Pos(), "no caller of DecodeAtom found")
+	}
 }
